@@ -84,3 +84,13 @@ class ScriptedDetector(ChangeDetector):
     @classmethod
     def get_test_params(cls, parameter_set="default"):
         return [{"cpts": ()}, {"cpts": (3, 5)}]
+
+
+class ScriptedDetectorNoFit(ScriptedDetector):
+    """The same user-defined detector declaring, as sktime allows, that its fit is empty."""
+
+    _tags = {
+        "capability:missing_values": False,
+        "capability:multivariate": True,
+        "fit_is_empty": True,
+    }
